@@ -65,7 +65,7 @@ def coq_result(out):
 
 
 def parse_nested(text):
-    t = re.sub(r'%[A-Za-z]+', '', text).replace(';', ',')
+    t = re.sub(r'%[A-Za-z]+', '', text).replace(';', ',').replace('(', '[').replace(')', ']')
     t = re.sub(r'\s+', '', t)
     return json.loads(t)
 
@@ -116,11 +116,44 @@ def enum_heavy_program(r):
     return {'sources': {'Main': '\n'.join(L) + '\n'}, 'entry': 'Main', 'features': ['enum-heavy']}
 
 
+def bounded_generic_program(r):
+    """methods of generic classes called through a bounded type parameter, a generic interface method, a method value: the
+    places where generics specialisation has to find a function under the name of a specialised type"""
+    n = 1 + r.below(3)
+    L = ['interface Show { method show(): Str }', 'interface Size { method size(): int }']
+    for i in range(n):
+        L.append('class Bx%d<T>(val v: T) : Show, Size { method show(): Str = "bx%d" method size(): int = %d }' % (i, i, i + 1))
+        L.append('class Pr%d<A, B>(val a: A, val b: B) : Show { method show(): Str = "pr%d" method first(): A = this.a }' % (i, i))
+    L.append('class Leaf(val k: int) : Show, Size { method show(): Str = Str.fromInt(this.k) method size(): int = this.k }')
+    body = []
+    args = ['Leaf.init(%d)' % r.below(9)]
+    for i in range(n):
+        args += ['Bx%d.init(%d)' % (i, r.below(9)), 'Bx%d.init("s")' % i, 'Bx%d.init(Leaf.init(2))' % i,
+                 'Pr%d.init(1, Bx%d.init(true))' % (i, i), 'Pr%d.init(Bx%d.init(3), "t")' % (i, i)]
+    for k in range(3 + r.below(4)):
+        a = r.pick(args)
+        c = r.below(4)
+        if c == 0:
+            body.append('    let _ = Process.println(Main.p(%s));' % a)
+        elif c == 1 and not a.startswith('Pr'):
+            body.append('    let _ = Process.println(Str.fromInt(Main.q(%s)));' % a)
+        elif c == 2:
+            body.append('    let _ = Process.println(Main.twice(%s, %s));' % (a, r.pick(args)))
+        else:
+            body.append('    let _ = Process.println(Main.viaLambda(%s));' % a)
+    L.append('class Main {\n  function <T: Show> p(t: T): Str = t.show()\n  function <T: Size> q(t: T): int = t.size() + 1\n'
+             '  function <A: Show, B: Show> twice(a: A, b: B): Str = a.show() :: b.show()\n'
+             '  function <T: Show> viaLambda(t: T): Str = { let f = () -> t.show(); f() }\n'
+             '  function main(): unit = {\n' + '\n'.join(body) + '\n  }\n}')
+    return {'sources': {'Main': '\n'.join(L) + '\n'}, 'entry': 'Main', 'features': ['generic-class-under-bound']}
+
+
 def programs(tier, seed):
     from checks.c01 import load_corpus
     rng = Rng(seed ^ 0xC03A)
     progs = load_corpus('C03')
     n_gen, n_lay, n_inf, n_bi, n_enum = (40, 30, 16, 6, 28) if tier == 'quick' else (500, 350, 200, 60, 300)
+    n_bound = 10 if tier == 'quick' else 120
     for i in range(n_gen):
         r = rng.fork()
         progs.append(gen_program(r, {'big': i % 5 == 0, 'nfun': 4 + i % 3, 'depth': 2 + i % 2, 'loops': True, 'closures': i % 2 == 1,
@@ -133,6 +166,8 @@ def programs(tier, seed):
         progs.append(gen_builtin_program(rng.fork()))
     for i in range(n_enum):
         progs.append(enum_heavy_program(rng.fork()))
+    for i in range(n_bound):
+        progs.append(bounded_generic_program(rng.fork()))
     return progs
 
 
@@ -171,7 +206,8 @@ def names(ck, tier, seed, progs=None):
           'final_lir_validated': 0, 'final_lir_no_dangling': 0, 'final_lir_dangling': 0,
           'dedup_stages': 0, 'dedup_model_eq_real': 0, 'dedup_model_differs': 0, 'dedup_model_none': 0, 'dedup_merged_closures': 0,
           'dedup_merged_typedefs': 0, 'dedup_subtypes_renamed': 0, 'dedup_no_dangling_before': 0, 'dedup_no_dangling_after': 0,
-          'dedup_equal_after_renaming': 0, 'real_panics': 0, 'model_failures': 0, 'wf_inputs': 0, 'wf_checked': 0, 'synthetic_mir_dangling': 0, 'synthetic_lir_dangling': 0}
+          'dedup_equal_after_renaming': 0, 'real_panics': 0, 'model_failures': 0, 'wf_inputs': 0, 'wf_checked': 0, 'synthetic_mir_dangling': 0, 'synthetic_lir_dangling': 0,
+          'spec_validated': 0, 'spec_no_dangling': 0, 'spec_dangling': 0, 'spec_functions': 0}
     cases = []      # (kind, job id, where, definitions text, term, input)
     for jid in sorted(res):
         r = res[jid]
@@ -190,6 +226,7 @@ def names(ck, tier, seed, progs=None):
             ck.obligation('names-dump(job %d)' % jid, False, json.dumps(r)[:300])
             continue
         seen_before = set()
+        pending_spec = None
         for si, s in enumerate(r['stages']):
             kind = s['kind']
             where = dict(inp, stage=kind, where=s.get('where'))
@@ -201,7 +238,13 @@ def names(ck, tier, seed, progs=None):
                 ck.property_failure('%s panicked on an accepted program: %s' % (kind, str(s.get('panic') or s.get('lowering_panic'))[:200]),
                                     where, how='vh names-dump')
                 continue
-            if kind == 'mir-elim':
+            if kind == 'spec':
+                if 'before' in s:
+                    d = 'Definition p%s : msources := %s.\n' % (tag, s['before'])
+                    cases.append(('spec', jid, None, d, 'mir_spec_case p%s %s' % (tag, g_list(s['builtin_fns'])), dict(where, fname_text=s['fname_text'])))
+                else:
+                    pending_spec = s
+            elif kind == 'mir-elim':
                 st['mir_stages'] += 1
                 if s['before'] in seen_before:
                     continue
@@ -236,6 +279,12 @@ def names(ck, tier, seed, progs=None):
                 tbl = g_list('(%d, %d, %d)' % (e[0], e[1], e[2]) for e in s['derive'])
                 par = g_list('(%d, %d)' % (e[0], e[1]) for e in s['parents_after'])
                 cases.append(('dedup', jid, None, d, 'dedup_case b%s a%s %s %s' % (tag, tag, tbl, par), where))
+                if pending_spec is not None:
+                    # the program right after generics specialisation = the input of the deduplication
+                    d = 'Definition p%s : msources := %s.\n' % (tag, s['before'])
+                    cases.append(('spec', jid, None, d, 'mir_spec_case p%s %s' % (tag, g_list(pending_spec['builtin_fns'])),
+                                  dict(where, stage='spec', fname_text=pending_spec['fname_text'])))
+                    pending_spec = None
     st['mir_stages_distinct'] = sum(1 for c in cases if c[0] == 'mir')
     # shards balanced by size
     nshard = max(1, min(NCPU, len(cases)))
@@ -333,6 +382,22 @@ def names(ck, tier, seed, progs=None):
                     ck.property_failure('the final LIR of an accepted program has a dangling reference (validator lir_no_dangling = false): '
                                         '%d type, %d string, %d function-value, %d callee, %d entry-point references without a definition'
                                         % (nt, ns, nfv, nfc, nm_), where, how=how)
+            elif kind == 'spec':
+                ok, nt, ns, nfv, nfc, nmn, nfun, wfb = row[:8]
+                fc, fv, ts = row[8:8 + nfc], row[8 + nfc:8 + nfc + nfv], row[8 + nfc + nfv:]
+                ck.case(['spec', where['sources']], True)
+                st['spec_validated'] += 1
+                st['spec_no_dangling'] += ok
+                st['spec_functions'] += nfun
+                if not ok:
+                    st['spec_dangling'] += 1
+                    names_ = where.get('fname_text', {})
+                    missing = sorted({names_.get(str(i), '#%d' % i) for i in fc + fv})
+                    ck.property_failure('the MIR right after generics specialisation mentions a name that nothing defines (validator '
+                                        'mir_no_dangling_ext = false): %d callee, %d function-value, %d type, %d string, %d entry-point references; '
+                                        'undefined functions: %s; undefined type ids: %s'
+                                        % (nfc, nfv, nt, ns, nmn, ', '.join(missing)[:300], sorted(set(ts))[:8]),
+                                        {'sources': where['sources'], 'entry': where['entry']}, how=how)
             elif kind == 'dedup':
                 status, c, t, f, pp, ndb, nda, mc, mt, ms, dup, wfb = row
                 st['wf_inputs'] += wfb
@@ -364,6 +429,8 @@ def names(ck, tier, seed, progs=None):
     ck.obligation('C03names blind spots of the MIR pass replayed on the real passes (model = real, dangling type in MIR and in the final LIR)',
                   st['synthetic_mir_dangling'] == len(SYNTHETIC) and st['synthetic_lir_dangling'] == len(SYNTHETIC),
                   '%d / %d of %d' % (st['synthetic_mir_dangling'], st['synthetic_lir_dangling'], len(SYNTHETIC)))
+    if hooks:
+        ck.obligation('C03names validator on the MIR after generics specialisation ran', st['spec_validated'] > 0, '%d programs' % st['spec_validated'])
     ck.obligation('C03names final-LIR validator ran', st['final_lir_validated'] > 0, '%d programs' % st['final_lir_validated'])
     if hooks:
         ck.obligation('C03names LIR elimination tie ran', st['lir_stages'] > 0 and st['lir_deleting'] > 0, '%d stages' % st['lir_stages'])
@@ -389,6 +456,9 @@ def names(ck, tier, seed, progs=None):
           % (st['dedup_stages'], st['dedup_model_eq_real'], st['dedup_model_differs'], st['dedup_model_none'], st['dedup_merged_closures'],
              st['dedup_merged_typedefs'], st['dedup_subtypes_renamed'], st['dedup_no_dangling_before'], st['dedup_no_dangling_after'],
              st['dedup_equal_after_renaming'], st['real_panics'], st['wf_inputs'], st['wf_checked']))
+    print('C03names: MIR right after generics specialisation (hook compile_sources_to_mir_before_dedup): validated %d programs (%d functions): '
+          'every mentioned function / type / string defined or a runtime-library name %d, dangling %d'
+          % (st['spec_validated'], st['spec_functions'], st['spec_no_dangling'], st['spec_dangling']))
     print('C03names: hand-made MIR programs for the three blind spots of the MIR pass, through the real passes: dangling after the MIR elimination %d/%d '
           '(and model = real), dangling in the final LIR %d/%d' % (st['synthetic_mir_dangling'], len(SYNTHETIC), st['synthetic_lir_dangling'], len(SYNTHETIC)))
     return st
